@@ -37,6 +37,9 @@ DIR_LAYOUTS = [
 ]
 # A literal directory level *between* placeholder levels (finding #14 of DESIGN section 6)
 DIR_LAYOUTS.append(("y/lit/m", ["{year}", "fixed", "{month}"], "month"))
+# a non-temporal level *below* a temporal one
+DIR_LAYOUTS.append(("ymd/sat", ["{year}-{month}-{day}", "{sat}"], "day"))
+DIR_LAYOUTS.append(("y/m/d/sat", ["{year}", "{month}", "{day}", "{sat}"], "day"))
 # wildcard inside a directory level (the asterisk is typhon's documented wildcard)
 DIR_LAYOUTS.append(("y/m*/d", ["{year}", "m{month}_*", "{day}"], "day"))
 
